@@ -359,14 +359,25 @@ void Ruleset::registerRunnableRulesetForCgroupPath(
   auto action_group = std::vector<std::unique_ptr<BasePlugin>>();
   action_group.reserve(action_group_.size());
   for (auto it = action_group_.begin(); it != action_group_.end(); ++it) {
-    auto plugin = registry.create(it->get()->getName());
+    std::unique_ptr<BasePlugin> plugin(
+        registry.create(it->get()->getName()));
     plugin->setName(it->get()->getName());
     auto args = it->get()->getPluginArgs();
     // plugins read `cgroup` as a wildcard pattern: escape what glob(3) would
     // interpret, so that the default targets exactly this cgroup
-    args.try_emplace("cgroup", escapeGlob(cgroup.relativePath()));
-    plugin->init(args, PluginConstructionContext(cgroup.cgroupFs()));
-    action_group.emplace_back(plugin);
+    const bool defaulted =
+        args.try_emplace("cgroup", escapeGlob(cgroup.relativePath())).second;
+    const PluginConstructionContext ctx(cgroup.cgroupFs());
+    if (plugin->init(args, ctx) != 0 && defaulted) {
+      // Not every action takes a cgroup (systemd_restart for one). Such a
+      // plugin rejects the argument it does not know and is left with
+      // whatever it had parsed until then: give it its own arguments only.
+      args.erase("cgroup");
+      plugin.reset(registry.create(it->get()->getName()));
+      plugin->setName(it->get()->getName());
+      plugin->init(args, ctx);
+    }
+    action_group.emplace_back(std::move(plugin));
   }
   auto ruleset = std::make_unique<Ruleset>(
       name_,
